@@ -153,7 +153,8 @@ def canon_storage(prog, mfin, sto):
 def part_generated(ctx, cfgs):
     t0 = time.time()
     n = 12 if ctx.tier == "quick" else 100
-    items, stats = D.generate(ctx, "c02gen", n, ncalls=6 if ctx.tier == "thorough" else 4)
+    items, stats = D.generate(ctx, "c02gen", n, ncalls=6 if ctx.tier == "thorough" else 4,
+                              nprobe=2 if ctx.tier == "quick" else 6)
     obs = D.observe_all(items, cfgs, procs=4)
     n_cmp = 0
     reported = 0
